@@ -10,7 +10,6 @@
 // only by the oracles.
 
 use std::collections::VecDeque;
-use std::convert::Infallible;
 use std::io::Write;
 use std::sync::atomic::{AtomicU64, Ordering};
 use std::sync::Arc;
@@ -65,14 +64,30 @@ fn chunks_str(cs: &[PChunk]) -> String {
     }
 }
 
+/// The error of the harness callback: an armed send fault fired (`Callback::send` returned `Err`,
+/// the datagram counts as not sent).
+#[derive(Clone, Copy, Debug, PartialEq, Eq)]
+pub struct SendFail;
+
 struct Cb {
     now: u64,
     draws: VecDeque<[u8; 4]>,
+    /// every datagram handed to `send`, in order (also those whose send failed)
     sent: Vec<Vec<u8>>,
+    /// armed send faults: count-downs, `k` = the k-th next `send` fails
+    faults: Vec<u32>,
+    /// indices into `sent` of the datagrams whose send failed
+    failed_at: Vec<usize>,
+}
+
+impl Cb {
+    fn new(now: u64, draws: VecDeque<[u8; 4]>) -> Cb {
+        Cb { now, draws, sent: vec![], faults: vec![], failed_at: vec![] }
+    }
 }
 
 impl cx::Callback for Cb {
-    type Error = Infallible;
+    type Error = SendFail;
     fn secure_random(&mut self, buffer: &mut [u8]) {
         if buffer.len() != 4 {
             panic!("secure_random: unexpected length");
@@ -80,8 +95,18 @@ impl cx::Callback for Cb {
         let d = self.draws.pop_front().expect("secure_random: no draw supplied");
         buffer.copy_from_slice(&d);
     }
-    fn send(&mut self, data: &[u8]) -> Result<(), Infallible> {
+    fn send(&mut self, data: &[u8]) -> Result<(), SendFail> {
         self.sent.push(data.to_vec());
+        let mut hit = false;
+        for k in self.faults.iter_mut() {
+            *k = k.saturating_sub(1);
+            hit |= *k == 0;
+        }
+        self.faults.retain(|k| *k > 0);
+        if hit {
+            self.failed_at.push(self.sent.len() - 1);
+            return Err(SendFail);
+        }
         Ok(())
     }
     fn time(&mut self) -> Timestamp {
@@ -167,6 +192,8 @@ pub struct World {
     /// the C01 assumptions (fewer than 512 unacknowledged, no datagram delayed across 512
     /// submissions of either side) have held so far
     pub assumptions_ok: bool,
+    /// armed send faults of the two endpoints (`<ep> failsend <k>`)
+    pub faults: [Vec<u32>; 2],
 }
 
 enum OpRes {
@@ -181,7 +208,7 @@ fn is_nonidle(kind: &str) -> bool {
 /// Outputs of a scripted follow-up on a (cloned) connection, for the C03 behavioural comparison.
 fn follow_up(mut conn: cx::Connection, now: u64) -> String {
     let mut out = String::new();
-    let mut cb = Cb { now, draws: VecDeque::new(), sent: vec![] };
+    let mut cb = Cb::new(now, VecDeque::new());
     cb.draws.push_back([1, 2, 3, 4]);
     let r = catch(|| {
         let mut s = String::new();
@@ -220,11 +247,43 @@ fn follow_up(mut conn: cx::Connection, now: u64) -> String {
 
 impl World {
     pub fn new() -> World {
-        World { eps: [Ep::new(), Ep::new()], now: 0, pure: true, assumptions_ok: true }
+        World { eps: [Ep::new(), Ep::new()], now: 0, pure: true, assumptions_ok: true, faults: [vec![], vec![]] }
     }
 
+    /// `f:<op> …` (send-fault sessions): executed and checked by the oracles like any other op, but
+    /// not compared with the model — both sides print `skip`
     pub fn exec(&mut self, toks: &[&str], o: &mut Oracle) -> String {
+        if let Some(op) = toks.first().and_then(|t| t.strip_prefix("f:")) {
+            let mut v: Vec<&str> = toks.to_vec();
+            v[0] = op;
+            if op != "new" {
+                o.count("ops_not_compared_with_model");
+                let _ = self.exec_op(&v, o);
+            }
+            return "skip".to_string();
+        }
+        self.exec_op(toks, o)
+    }
+
+    fn exec_op(&mut self, toks: &[&str], o: &mut Oracle) -> String {
         match toks {
+            [ep, "failsend", k] if *ep == "a" || *ep == "b" => {
+                // arm a send fault: the k-th next `Callback::send` of this endpoint returns `Err`;
+                // `0` disarms (the network behaves again)
+                let i = if *ep == "a" { 0 } else { 1 };
+                match k.parse::<u32>() {
+                    Ok(0) => {
+                        self.faults[i].clear();
+                        "ok".to_string()
+                    }
+                    Ok(k) if k <= 1000 => {
+                        self.faults[i].push(k);
+                        o.count("send_faults_armed");
+                        "ok".to_string()
+                    }
+                    _ => "bad-op".to_string(),
+                }
+            }
             ["new"] => {
                 *self = World::new();
                 "ok".to_string()
@@ -286,7 +345,7 @@ impl World {
                 // nothing queued (and no resend request pending): a flush sends nothing; nothing
                 // unacknowledged: ticks one second later send at most a keep-alive (no chunk packet)
                 let mut c = e.conn.verif_clone();
-                let mut cb = Cb { now: self.now, draws: VecDeque::new(), sent: vec![] };
+                let mut cb = Cb::new(self.now, VecDeque::new());
                 let _ = catch(|| c.flush(&mut cb));
                 if !cb.sent.is_empty() {
                     return Err(format!("endpoint {} still had something queued after the fair suffix", i));
@@ -309,7 +368,8 @@ impl World {
             return "dead".to_string();
         }
         let now = self.now;
-        let mut cb = Cb { now, draws: parse_draws(args), sent: vec![] };
+        let mut cb = Cb::new(now, parse_draws(args));
+        cb.faults = self.faults[i].clone();
         let fp_before = self.eps[i].conn.verif_fingerprint();
         let kind_before = fp_kind(&fp_before);
         let mut events: Vec<String> = vec![];
@@ -374,6 +434,18 @@ impl World {
                         }
                         Ok(OpRes::Ok)
                     }
+                    Ok(Err(cx::Error::Callback(SendFail))) => {
+                        // the implicit flush failed; the chunk itself has been accepted and queued
+                        // (what the library does: a chunk handed to `send` that is not refused with
+                        // `TooLongData` counts as submitted)
+                        if vital {
+                            ep.sub_vital.push(data);
+                        } else {
+                            ep.sub_nonvital.push(data.clone());
+                            ep.pending_nonvital.push_back(data);
+                        }
+                        Ok(OpRes::Ok)
+                    }
                     Ok(Err(cx::Error::TooLongData)) => {
                         o.count("send_toolong");
                         // a refused send leaves the connection unchanged
@@ -382,7 +454,6 @@ impl World {
                         }
                         Ok(OpRes::TooLong)
                     }
-                    Ok(Err(cx::Error::Callback(e))) => match e {},
                 }
             }
             ["sendcl", h] => {
@@ -401,7 +472,7 @@ impl World {
                         }
                         Ok(OpRes::TooLong)
                     }
-                    Ok(Err(cx::Error::Callback(e))) => match e {},
+                    Ok(Err(cx::Error::Callback(SendFail))) => Ok(OpRes::Ok),
                 }
             }
             ["disconnect", h] => {
@@ -509,15 +580,25 @@ impl World {
 
         // ---- datagrams handed to the send callback: C04 oracle + canonical text
         let mut sent_txt: Vec<String> = vec![];
+        // datagrams whose send failed: they were handed to the callback (so the C04 checks apply)
+        // but never reach the network — for the peer they are lost datagrams
+        let mut failed_txt: Vec<String> = vec![];
+        self.faults[i] = std::mem::take(&mut cb.faults);
+        let failed_at = std::mem::take(&mut cb.failed_at);
         let stamp_n = [self.eps[0].sub_vital.len() as u64, self.eps[1].sub_vital.len() as u64];
         let stamp_d = self.eps[i].del_vital.len() as u64;
-        for d in std::mem::take(&mut cb.sent) {
-            o.count("datagrams_sent");
+        for (di, d) in std::mem::take(&mut cb.sent).into_iter().enumerate() {
+            let failed = failed_at.contains(&di);
+            o.count(if failed { "sends_failed" } else { "datagrams_sent" });
             let p = parse_sent(&d);
             if !permitted {
                 // outside the API's preconditions (e.g. an over-long close reason): no claim
-                sent_txt.push(p.text);
-                self.eps[i].hist.push(Dg { bytes: d, stamp_n, stamp_d, delivered: 0 });
+                if failed {
+                    failed_txt.push(p.text);
+                } else {
+                    sent_txt.push(p.text);
+                    self.eps[i].hist.push(Dg { bytes: d, stamp_n, stamp_d, delivered: 0 });
+                }
                 continue;
             }
             if d.len() > 1400 {
@@ -564,6 +645,10 @@ impl World {
                         }
                     }
                 }
+            }
+            if failed {
+                failed_txt.push(p.text);
+                continue;
             }
             if is_accept_text(&p.text) {
                 self.eps[i].sent_accept = true;
@@ -652,8 +737,8 @@ impl World {
             if !events.is_empty() {
                 o.fail("C03/event", format!("datagram without the agreed token produced events {:?}", events));
             }
-            if !sent_txt.is_empty() {
-                o.fail("C03/sent", format!("datagram without the agreed token triggered {:?}", sent_txt));
+            if !sent_txt.is_empty() || !failed_txt.is_empty() {
+                o.fail("C03/sent", format!("datagram without the agreed token triggered {:?} {:?}", sent_txt, failed_txt));
             }
             if fp_after != fp_before {
                 o.fail("C03/state-changed", format!("before: {} after: {}", fp_before, fp_after));
@@ -677,8 +762,9 @@ impl World {
         }
 
         let list = |v: &Vec<String>| if v.is_empty() { "-".to_string() } else { v.join(",") };
+        let x = if failed_txt.is_empty() { String::new() } else { format!(" x={}", list(&failed_txt)) };
         format!(
-            "{} s={} e={} w={} nt={}",
+            "{} s={} e={} w={} nt={}{}",
             match res {
                 OpRes::Ok => "ok",
                 OpRes::TooLong => "toolong",
@@ -689,7 +775,8 @@ impl World {
             match nt {
                 None => "inactive".to_string(),
                 Some(t) => t.to_string(),
-            }
+            },
+            x
         )
     }
 }
@@ -715,6 +802,9 @@ pub struct Gen<'a> {
     pub last: String,
     busy: Arc<AtomicU64>,
     pub lines: u64,
+    /// prefix of every further line of the session: `f:` once a send fault has been armed (the
+    /// model does not know send faults; such lines are run under the oracles only)
+    pub pfx: &'static str,
 }
 
 impl<'a> Gen<'a> {
@@ -743,11 +833,15 @@ impl<'a> Gen<'a> {
                 }
             });
         }
-        Gen { w: World::new(), out, rng: Rng::new(seed), o: Oracle::new(), last: String::new(), busy, lines: 0 }
+        Gen { w: World::new(), out, rng: Rng::new(seed), o: Oracle::new(), last: String::new(), busy, lines: 0, pfx: "" }
     }
 
     /// emit one request line and execute it on the generator's own world
     pub fn line(&mut self, l: &str) -> &str {
+        if l == "new" {
+            self.pfx = "";
+        }
+        let l = &format!("{}{}", self.pfx, l);
         writeln!(self.out, "{}", l).unwrap();
         self.out.flush().unwrap();
         self.lines += 1;
@@ -758,6 +852,13 @@ impl<'a> Gen<'a> {
         // the generator's oracle log is not used
         self.o.fails.clear();
         &self.last
+    }
+
+    /// arm a send fault at endpoint `i` (the k-th next send fails; 0 disarms); from here on the
+    /// session is not compared with the model
+    pub fn failsend(&mut self, i: usize, k: u32) {
+        self.pfx = "f:";
+        self.line(&format!("{} failsend {}", Self::ep(i), k));
     }
 
     pub fn ep(i: usize) -> &'static str {
